@@ -52,11 +52,60 @@ def rule_qr_carry(model: Model):
     nxt = bool(nxt_names)
     obs.append(Ob("QR-CARRY", k + "next-core", OK if nxt else VIOLATED, model.where(f, loop), "next = self.cores[i + 1]",
                   "the sweep advances to core i+1" if nxt else "the sweep does not take core i+1 as the next core"))
-    # the carried core: a name re-bound in the loop body from another name (cur = next), read by the returns after the loop
-    rebound = [s.targets[0].id for s in loop.body if isinstance(s, ast.Assign) and isinstance(s.targets[0], ast.Name) and isinstance(s.value, ast.Name)]
-    rets = [r for r in ast.walk(f.node) if isinstance(r, ast.Return) and r.lineno > loop.lineno]
-    good = bool(rebound) and bool(rets) and all(any(f"tn.linalg.norm({c})" in norm(r.value) for c in rebound) for r in rets)
-    sq = any(norm(r.value).replace(" ", "").endswith("**2") for r in rets) and any(not norm(r.value).replace(" ", "").endswith("**2") for r in rets)
+    # the carried core: a name bound before the sweep and re-bound in its body; the returns after the loop read it
+    def _targets(stmts):
+        out = set()
+        for st in stmts:
+            for s in ast.walk(st):
+                if isinstance(s, ast.Assign):
+                    for t in s.targets:
+                        out |= {x.id for x in ast.walk(t) if isinstance(x, ast.Name)}
+        return out
+    parent_block = None
+    for n in ast.walk(f.node):
+        for fld in ("body", "orelse"):
+            blk = getattr(n, fld, None)
+            if isinstance(blk, list) and loop in blk:
+                parent_block = blk
+    before = _targets(parent_block[:parent_block.index(loop)]) if parent_block else set()
+    rebound = sorted(_targets(loop.body) & before)
+    after = parent_block[parent_block.index(loop) + 1:] if parent_block else []
+    post = {}
+    for st in after:
+        if isinstance(st, ast.Assign) and len(st.targets) == 1 and isinstance(st.targets[0], ast.Name):
+            post.setdefault(st.targets[0].id, []).append(st.value)
+
+    def expand(e, depth=0):
+        if isinstance(e, ast.Name) and len(post.get(e.id, [])) == 1 and depth < 4:
+            return expand(post[e.id][0], depth + 1)
+        return e
+
+    def is_norm(e):
+        e = expand(e)
+        if not isinstance(e, ast.Call):
+            return False
+        fn_txt = norm(e.func).replace(" ", "")
+        if fn_txt in ("tn.linalg.norm", "tn.norm", "torch.linalg.norm", "torch.norm", "tn.linalg.vector_norm") and len(e.args) == 1 and not e.keywords:
+            return isinstance(e.args[0], ast.Name) and e.args[0].id in rebound
+        if isinstance(e.func, ast.Attribute) and e.func.attr == "norm" and not e.args and not e.keywords:
+            return isinstance(e.func.value, ast.Name) and e.func.value.id in rebound
+        return False
+
+    def classify(e):
+        """'plain' / 'squared' / None for one returned expression"""
+        e = expand(e)
+        if isinstance(e, ast.BinOp) and isinstance(e.op, ast.Pow) and isinstance(e.right, ast.Constant) and e.right.value == 2:
+            return "squared" if is_norm(e.left) else None
+        if isinstance(e, ast.BinOp) and isinstance(e.op, ast.Mult) and norm(e.left) == norm(e.right):
+            return "squared" if is_norm(e.left) else None
+        return "plain" if is_norm(e) else None
+    rets = [r for r in ast.walk(f.node) if isinstance(r, ast.Return) and r.lineno > loop.lineno and r.value is not None]
+    kinds = []
+    for r in rets:
+        v = expand(r.value)
+        kinds += [classify(v.body), classify(v.orelse)] if isinstance(v, ast.IfExp) else [classify(v)]
+    good = bool(rebound) and bool(kinds) and None not in kinds
+    sq = "squared" in kinds and "plain" in kinds
     obs.append(Ob("QR-CARRY", k + "return", OK if good and sq else VIOLATED, model.where(f, rets[0]) if rets else model.where(f), "return norm(carried core)",
                   "Frobenius norm of the last carried core (squared when requested)" if good and sq else
                   "the value returned after the QR sweep is not the Frobenius norm of the carried core (plain / squared)"))
